@@ -708,6 +708,9 @@ class Prop(object):
                 except renc.DecryptError as e:
                     fail('export-wrong', 'export does not open with the current passphrase: %r' % (e,))
                     return None
+                except wire.WireError as e:
+                    fail('export-wrong', 'the export is not a well-formed key: %r' % (e,))
+                    return None
             else:
                 if key.is_protected:
                     fail('model-mismatch', 'key reports protected but the model says unprotected')
